@@ -30,8 +30,12 @@ def check(run):
     failed_all += failed2
     if D.canary(run, "fitting/test_all.py", "chi2_fcn", (lambda: c_test_all.chi2_fcn_contract(False))) is False:
         raise RuntimeError("canary verified: engine vacuous on chi2_fcn")
+    # what the optimiser minimises is the likelihood of the function run_sympify parses: the fitting-stage symbol table gives sqrt / log / pow ESR's meaning (on absolute values)
+    sfailed = D.symtab_obligations(run)
     found, B = _wrap.run_bounded(run, "checks.C10_bounded")
     _wrap.report_unproved(run, failed_all, found, "test_all.chi2_fcn")
+    if not found:
+        D.report_structural(run, sfailed, "symtab", "pyvc/symtab.py")
     run.assume("A-float", "10**x uninterpreted", "convergence of BFGS multi-start is bounded/sampled only")
     run.trust("pyvc", "z3 5.1.0", "closed-form weighted least squares oracle (/verif/harness/fitlib.py)")
     return run.finish("other", META["text"], CHECKER)
